@@ -2604,5 +2604,393 @@ theorem setGeometry_wf {t : Tree} {win : Nat} {g : Rect} {x : Tree × Bool} (h :
     exact wfB_set_same (w' := { w with rect := g }) h (get_ok.mp hg).1 rfl rfl rfl
   · simp only [pure_ok] at hs; subst hs; exact h
 
+
+/-! ### "the window losing the focus is told": tracking the old holder through `_focus_gained` -/
+
+/-- Everything of a window except `is_focused` (and the cursor record etc.): what the upward, OUT-delivering phase of
+    `_focus_gained` leaves alone. -/
+def lk (w : Win) : Option Nat × Bool × Bool × Option Nat × List Nat × Bool :=
+  (w.parent, w.isVisible, w.freed, w.focusedChild, w.children, w.isRoot)
+
+def SameLK (t t' : Tree) : Prop :=
+  t'.root = t.root ∧ (∀ i : Nat, (t'.wins[i]?).map lk = (t.wins[i]?).map lk) ∧ t'.wins.size = t.wins.size
+
+theorem sameLK_refl (t : Tree) : SameLK t t := ⟨rfl, fun _ => rfl, rfl⟩
+theorem sameLK_trans {a b c : Tree} (h1 : SameLK a b) (h2 : SameLK b c) : SameLK a c :=
+  ⟨h2.1.trans h1.1, fun i => (h2.2.1 i).trans (h1.2.1 i), h2.2.2.trans h1.2.2⟩
+
+theorem sameLK_set {t : Tree} {i : Nat} {w w' : Win} (hw : t.wins[i]? = some w) (hs : lk w' = lk w) :
+    SameLK t (WinTree.set t i w') := by
+  refine ⟨rfl, fun j => ?_, by simp [WinTree.set]⟩
+  rw [set_lookup hw]
+  by_cases hij : i = j
+  · subst hij; simp [hw, hs]
+  · simp [hij]
+
+theorem sameLK_lookup {t t' : Tree} (h : SameLK t t') {i : Nat} {w : Win} (hw : t.wins[i]? = some w) :
+    ∃ w', t'.wins[i]? = some w' ∧ lk w' = lk w := by
+  have := h.2.1 i
+  rw [hw] at this
+  cases hw' : t'.wins[i]? with
+  | none => rw [hw'] at this; simp at this
+  | some w' => rw [hw'] at this; simp at this; exact ⟨w', rfl, this⟩
+
+theorem sameLK_symm {t t' : Tree} (h : SameLK t t') : SameLK t' t := ⟨h.1.symm, fun i => (h.2.1 i).symm, h.2.2.symm⟩
+
+/-- The old holder is still focused, or has been told OUT. -/
+def Tracked (b : Nat) (t : Tree) (evs : List Event) : Prop :=
+  (∃ bw, t.wins[b]? = some bw ∧ bw.isFocused = true) ∨ (⟨b, .focusOut, b⟩ : Event) ∈ evs
+
+theorem tracked_mono {b : Nat} {t : Tree} {evs : List Event} (x : List Event) (h : Tracked b t evs) :
+    Tracked b t (evs ++ x) := by
+  rcases h with h | h
+  · exact .inl h
+  · exact .inr (List.mem_append.mpr (.inl h))
+
+theorem focusLostSelf_track {t : Tree} {win b : Nat} {evs : List Event} {r : Tree × List Event}
+    (h : focusLostSelf t win evs = .ok r) (ht : Tracked b t evs) : SameLK t r.1 ∧ Tracked b r.1 r.2 := by
+  simp only [focusLostSelf, bind_ok] at h
+  obtain ⟨w, hg, h⟩ := h
+  have hw := (get_ok.mp hg).1
+  split at h
+  · simp only [pure_ok] at h; subst h
+    refine ⟨sameLK_set hw rfl, ?_⟩
+    by_cases hb : win = b
+    · subst hb; exact .inr (by simp)
+    · rcases ht with ⟨bw, hbw, hf⟩ | ht
+      · left; exact ⟨bw, by rw [set_lookup hw]; simp [hb, hbw], hf⟩
+      · exact .inr (List.mem_append.mpr (.inl ht))
+  · simp only [pure_ok] at h; subst h; exact ⟨sameLK_refl _, ht⟩
+
+theorem focusLost_track : ∀ (fuel : Nat) (t : Tree) (win b : Nat) (r : Tree × List Event),
+    focusLost fuel t win = .ok r → Tracked b t [] → SameLK t r.1 ∧ Tracked b r.1 r.2 := by
+  intro fuel
+  induction fuel with
+  | zero => intro t win b r h; simp [focusLost] at h
+  | succ n ih =>
+    intro t win b r h ht
+    simp only [focusLost, bind_ok] at h
+    obtain ⟨r1, h1, h2⟩ := h
+    have h1' : SameLK t r1.1 ∧ Tracked b r1.1 r1.2 := by
+      simp only [focusLostChild, bind_ok] at h1
+      obtain ⟨w, _, h1⟩ := h1
+      split at h1
+      · simp only [pure_ok] at h1; subst h1; exact ⟨sameLK_refl _, ht⟩
+      · simp only [bind_ok, pure_ok] at h1
+        obtain ⟨r0, h0, w', _, h1⟩ := h1
+        subst h1
+        obtain ⟨a, b'⟩ := ih _ _ b r0 h0 ht
+        exact ⟨a, tracked_mono _ b'⟩
+    obtain ⟨a, b'⟩ := focusLostSelf_track h2 h1'.2
+    exact ⟨sameLK_trans h1'.1 a, b'⟩
+
+/-- `_focus_lost` on a window whose `focused_child` chain ends at a focused window tells that window OUT. -/
+theorem focusLost_emits : ∀ (fuel : Nat) (t : Tree) (x b : Nat) (bw : Win) (r : Tree × List Event),
+    focusLost fuel t x = .ok r → chainEnd t fuel x = b → t.wins[b]? = some bw → bw.isFocused = true →
+    (⟨b, .focusOut, b⟩ : Event) ∈ r.2 := by
+  intro fuel
+  induction fuel with
+  | zero => intro t x b bw r h; simp [focusLost] at h
+  | succ n ih =>
+    intro t x b bw r h hce hbw hbf
+    simp only [focusLost, bind_ok] at h
+    obtain ⟨r1, h1, h2⟩ := h
+    simp only [focusLostChild, bind_ok] at h1
+    obtain ⟨w, hg, h1⟩ := h1
+    have hw := get_ok.mp hg
+    split at h1
+    · next hfc =>
+      simp only [pure_ok] at h1; subst h1
+      rw [chainEnd_none hw hfc] at hce
+      subst hce
+      simp only [focusLostSelf, bind_ok] at h2
+      obtain ⟨w2, hg2, h2⟩ := h2
+      have := (get_ok.mp hg2).1
+      rw [hbw] at this; cases this
+      simp only [hbf, if_true, pure_ok] at h2
+      subst h2; simp
+    · next c hfc =>
+      simp only [bind_ok, pure_ok] at h1
+      obtain ⟨r0, h0, w', _, h1⟩ := h1
+      subst h1
+      rw [chainEnd_some hw hfc] at hce
+      have := ih _ _ _ bw r0 h0 hce hbw hbf
+      obtain ⟨x', hx', _⟩ := focusLostSelf_events h2
+      rw [hx']
+      exact List.mem_append.mpr (.inl (List.mem_append.mpr (.inl this)))
+
+theorem chainEnd_lk {t t' : Tree} (h : SameLK t t') : ∀ (f x : Nat), chainEnd t' f x = chainEnd t f x := by
+  intro f
+  induction f with
+  | zero => intro x; rfl
+  | succ f ih =>
+    intro x
+    rw [chainEnd, chainEnd]
+    cases hw : t.wins[x]? with
+    | none =>
+      have := h.2.1 x; rw [hw] at this
+      cases hw' : t'.wins[x]? with
+      | none => rfl
+      | some _ => rw [hw'] at this; simp at this
+    | some w =>
+      obtain ⟨w', hw', hs⟩ := sameLK_lookup h hw
+      rw [hw']
+      have : w'.focusedChild = w.focusedChild := by unfold lk at hs; simp at hs; exact hs.2.2.2.1
+      simp only [this, ih]
+
+/-- With enough fuel the end of a focus chain does not depend on the fuel. -/
+theorem chainEnd_fuel {t : Tree} (h : wfB t = true) : ∀ (f f' x : Nat) (w : Win), Live t x w →
+    t.wins.size < f + x → t.wins.size < f' + x → chainEnd t f x = chainEnd t f' x := by
+  intro f
+  induction f with
+  | zero => intro f' x w hw h1 _; have := live_lt hw; omega
+  | succ f ih =>
+    intro f' x w hw h1 h2
+    cases f' with
+    | zero => have := live_lt hw; omega
+    | succ f' =>
+      cases hfc : w.focusedChild with
+      | none => rw [chainEnd_none hw hfc, chainEnd_none hw hfc]
+      | some c =>
+        rw [chainEnd_some hw hfc, chainEnd_some hw hfc]
+        obtain ⟨cw, hcw, hcp, _⟩ := wf_focused h hw hfc
+        have := (wf_parent h hcw hcp).1
+        exact ih f' c cw hcw (by omega) (by omega)
+
+
+theorem sameLK_pv {t t' : Tree} (h : SameLK t t') : SamePV t t' := by
+  refine ⟨h.1, fun i => ?_⟩
+  have := h.2.1 i
+  cases h1 : t.wins[i]? <;> cases h2 : t'.wins[i]? <;> simp [h1, h2, lk, pv] at this ⊢
+  exact ⟨this.1, this.2.1, this.2.2.1⟩
+
+theorem sameLK_live {t t' : Tree} (h : SameLK t t') {i : Nat} {w : Win} (hw : Live t i w) :
+    ∃ w', Live t' i w' ∧ lk w' = lk w := by
+  obtain ⟨w', hw', hs⟩ := sameLK_lookup h hw.1
+  refine ⟨w', ⟨hw', ?_⟩, hs⟩
+  have : w'.freed = w.freed := by unfold lk at hs; simp at hs; exact hs.2.2.1
+  rw [this]; exact hw.2
+
+theorem anc_lk {t t' : Tree} (h : SameLK t t') {o x : Nat} (ha : Anc t o x) : Anc t' o x := by
+  induction ha with
+  | refl => exact .refl _
+  | @step o p x w hw hp _ ih =>
+    obtain ⟨w', hw', hs⟩ := sameLK_live h hw
+    have : w'.parent = w.parent := by unfold lk at hs; simp at hs; exact hs.1
+    exact .step hw' (this.trans hp) ih
+
+/-- On the focus chain from the root. -/
+inductive OnChain (t : Tree) : Nat → Prop where
+  | root : OnChain t 0
+  | step {p c : Nat} {w : Win} : OnChain t p → Live t p w → w.focusedChild = some c → OnChain t c
+
+theorem onChain_lk {t t' : Tree} (h : SameLK t t') {x : Nat} (ho : OnChain t x) : OnChain t' x := by
+  induction ho with
+  | root => exact .root
+  | @step p c w _ hw hfc ih =>
+    obtain ⟨w', hw', hs⟩ := sameLK_live h hw
+    have : w'.focusedChild = w.focusedChild := by unfold lk at hs; simp at hs; exact hs.2.2.2.1
+    exact .step ih hw' (this.trans hfc)
+
+/-- Every window on the chain sees the same chain end. -/
+theorem onChain_end {t : Tree} (h : wfB t = true) {x : Nat} (ho : OnChain t x) :
+    ∀ (f : Nat) (w : Win), Live t x w → t.wins.size < f + x → chainEnd t f x = chainEnd t (treeFuel t) 0 := by
+  induction ho with
+  | root =>
+    intro f w hw hf
+    exact chainEnd_fuel h _ _ 0 w hw hf (by unfold treeFuel; omega)
+  | @step p c pw _ hpw hfc ih =>
+    intro f w hw hf
+    have := ih (t.wins.size + 2) pw hpw (by omega)
+    rw [chainEnd_some hpw hfc] at this
+    rw [← this]
+    exact chainEnd_fuel h _ _ c w hw hf (by omega)
+
+/-- The end of the chain below `x` is `x` or a descendant of `x`. -/
+theorem chainEnd_anc {t : Tree} (h : wfB t = true) : ∀ (f x : Nat) (w : Win), Live t x w → Anc t (chainEnd t f x) x := by
+  intro f
+  induction f with
+  | zero => intro x w _; exact .refl _
+  | succ f ih =>
+    intro x w hw
+    cases hfc : w.focusedChild with
+    | none => rw [chainEnd_none hw hfc]; exact .refl _
+    | some c =>
+      rw [chainEnd_some hw hfc]
+      obtain ⟨cw, hcw, hcp, _⟩ := wf_focused h hw hfc
+      exact anc_snoc (ih c cw hcw) hcw hcp
+
+theorem gainLoseOld_track {fx : Fixes} {t : Tree} {win b : Nat} {child : Option Nat} {r : Tree × List Event}
+    (h : gainLoseOld fx t win child = .ok r) (ht : Tracked b t []) : SameLK t r.1 ∧ Tracked b r.1 r.2 := by
+  simp only [gainLoseOld, bind_ok] at h
+  obtain ⟨w, _, h⟩ := h
+  split at h
+  · simp only [pure_ok] at h; subst h; exact ⟨sameLK_refl _, ht⟩
+  · split at h
+    · simp only [bind_ok, pure_ok] at h
+      obtain ⟨r0, h0, w', _, h⟩ := h
+      subst h
+      obtain ⟨a, b'⟩ := focusLost_track _ _ _ b r0 h0 ht
+      exact ⟨a, tracked_mono _ b'⟩
+    · simp only [pure_ok] at h; subst h; exact ⟨sameLK_refl _, ht⟩
+
+theorem gainSelfOut_track {fx : Fixes} {t : Tree} {win b : Nat} {child : Option Nat} {evs : List Event}
+    {r : Tree × List Event} (h : gainSelfOut fx t win child evs = .ok r) (ht : Tracked b t evs) :
+    SameLK t r.1 ∧ Tracked b r.1 r.2 := by
+  simp only [gainSelfOut, bind_ok] at h
+  obtain ⟨w, hg, h⟩ := h
+  have hw := (get_ok.mp hg).1
+  split at h
+  · simp only [pure_ok] at h; subst h
+    refine ⟨sameLK_set hw rfl, ?_⟩
+    by_cases hb : win = b
+    · subst hb; exact .inr (by simp)
+    · rcases ht with ⟨bw, hbw, hf⟩ | ht
+      · left; exact ⟨bw, by rw [set_lookup hw]; simp [hb, hbw], hf⟩
+      · exact .inr (List.mem_append.mpr (.inl ht))
+  · simp only [pure_ok] at h; subst h; exact ⟨sameLK_refl _, ht⟩
+
+theorem gainLoseOld_wf {fx : Fixes} {t : Tree} {win : Nat} {child : Option Nat} {r : Tree × List Event}
+    (hwf : wfB t = true) (h1 : gainLoseOld fx t win child = .ok r) : wfB r.1 = true := by
+  simp only [gainLoseOld, bind_ok] at h1
+  obtain ⟨w, _, h1⟩ := h1
+  split at h1
+  · simp only [pure_ok] at h1; subst h1; exact hwf
+  · split at h1
+    · simp only [bind_ok, pure_ok] at h1
+      obtain ⟨r0, h0, w', _, h1⟩ := h1
+      subst h1
+      exact focusLost_wf _ _ _ r0 hwf h0
+    · simp only [pure_ok] at h1; subst h1; exact hwf
+
+theorem gainSelfOut_wf {fx : Fixes} {t : Tree} {win : Nat} {child : Option Nat} {evs : List Event}
+    {r : Tree × List Event} (hwf : wfB t = true) (h2 : gainSelfOut fx t win child evs = .ok r) : wfB r.1 = true := by
+  simp only [gainSelfOut, bind_ok] at h2
+  obtain ⟨w, hg, h2⟩ := h2
+  split at h2
+  · simp only [pure_ok] at h2; subst h2
+    exact wfB_set_same hwf (get_ok.mp hg).1 rfl rfl rfl
+  · simp only [pure_ok] at h2; subst h2; exact hwf
+
+
+/-- The old holder `b` of the focus is told OUT by `_focus_gained` climbing from a window attached to the root along
+    a visible path — for the repaired source always, for the unchanged one unless the focus moves between a window
+    and its ancestor. -/
+theorem gained_tells_loser (fx : Fixes) : ∀ (fuel : Nat) (t : Tree) (x : Nat) (child : Option Nat)
+    (r : Tree × List Event) (b : Nat),
+    focusGained fx fuel t x child = .ok r → wfB t = true → VisPath t x → Anc t x 0 →
+    chainEnd t (treeFuel t) 0 = b → (∃ bw, t.wins[b]? = some bw ∧ bw.isFocused = true) →
+    (child = none → x ≠ b) → (∀ c, child = some c → ¬ OnChain t c) →
+    (fx.focusEvents = true ∨ ((child = none → ¬ Anc t b x) ∧ ¬ Anc t x b)) →
+    (⟨b, .focusOut, b⟩ : Event) ∈ r.2 := by
+  intro fuel
+  induction fuel with
+  | zero => intro t x child r b h; simp [focusGained] at h
+  | succ n ih =>
+    intro t x child r b h hwf hvp h0 hb hfoc hne hoff hex
+    simp only [focusGained, bind_ok] at h
+    obtain ⟨r1, h1, r2, h2, r3, h3, h4⟩ := h
+    obtain ⟨x4, hx4, _, _⟩ := gainSelfIn_events h4
+    obtain ⟨x2, hx2, _⟩ := gainSelfOut_events h2
+    have in2 : (⟨b, .focusOut, b⟩ : Event) ∈ r2.2 → (⟨b, .focusOut, b⟩ : Event) ∈ r.2 := by
+      intro hm; rw [hx4]
+      exact List.mem_append.mpr (.inl (List.mem_append.mpr (.inl hm)))
+    have in1 : (⟨b, .focusOut, b⟩ : Event) ∈ r1.2 → (⟨b, .focusOut, b⟩ : Event) ∈ r.2 := by
+      intro hm; apply in2; rw [hx2]; exact List.mem_append.mpr (.inl hm)
+    have in3 : (⟨b, .focusOut, b⟩ : Event) ∈ r3.2 → (⟨b, .focusOut, b⟩ : Event) ∈ r.2 := by
+      intro hm; rw [hx4]
+      exact List.mem_append.mpr (.inl (List.mem_append.mpr (.inr hm)))
+    have hxw : ∃ w, Live t x w := by
+      cases hvp with
+      | top hw hf _ => exact ⟨_, hw, hf⟩
+      | step hw hf _ _ _ => exact ⟨_, hw, hf⟩
+    obtain ⟨w, hw⟩ := hxw
+    obtain ⟨bw, hbw, hbf⟩ := hfoc
+    by_cases hon : OnChain t x
+    · have hend : chainEnd t (treeFuel t) x = b :=
+        (onChain_end hwf hon _ w hw (by unfold treeFuel; omega)).trans hb
+      cases hfc : w.focusedChild with
+      | none =>
+        have hxb : x = b := by unfold treeFuel at hend; rw [chainEnd_none hw hfc] at hend; exact hend
+        cases child with
+        | none => exact absurd hxb (hne rfl)
+        | some c =>
+          have hfx : fx.focusEvents = true := by
+            rcases hex with hfx | ⟨_, hnb⟩
+            · exact hfx
+            · exact absurd (hxb ▸ Anc.refl x) hnb
+          simp only [gainLoseOld, bind_ok] at h1
+          obtain ⟨w1, hg1, h1⟩ := h1
+          have := live_unique (get_ok.mp hg1) hw; subst this
+          simp only [hfc, pure_ok] at h1
+          subst h1
+          simp only [gainSelfOut, bind_ok] at h2
+          obtain ⟨w2, hg2, h2⟩ := h2
+          have := live_unique (get_ok.mp hg2) hw; subst this
+          have hwf' : w2.isFocused = true := by
+            subst hxb; rw [hw.1] at hbw; cases hbw; exact hbf
+          simp only [hfx, hwf', Option.isSome_some, Bool.and_self, if_true, pure_ok] at h2
+          apply in2; rw [← h2]; simp [hxb]
+      | some f =>
+        obtain ⟨fw, hfw, hfp, _⟩ := wf_focused hwf hw hfc
+        have hflt := (wf_parent hwf hfw hfp).1
+        have hcond : ((child.isSome || fx.focusEvents) && decide (some f ≠ child)) = true := by
+          cases child with
+          | none =>
+            have hfx : fx.focusEvents = true := by
+              rcases hex with hfx | ⟨ha, _⟩
+              · exact hfx
+              · exact absurd (hend ▸ chainEnd_anc hwf _ x w hw) (ha rfl)
+            simp [hfx]
+          | some c =>
+            have : f ≠ c := fun hc => hoff c rfl (hc ▸ OnChain.step hon hw hfc)
+            simp [this]
+        simp only [gainLoseOld, bind_ok] at h1
+        obtain ⟨w1, hg1, h1⟩ := h1
+        have := live_unique (get_ok.mp hg1) hw; subst this
+        simp only [hfc] at h1
+        rw [if_pos hcond] at h1
+        simp only [bind_ok, pure_ok] at h1
+        obtain ⟨r0, h0', w', _, h1⟩ := h1
+        have hendf : chainEnd t (treeFuel t) f = b := by
+          have := hend
+          unfold treeFuel at this
+          rw [chainEnd_some hw hfc] at this
+          rw [← this]
+          exact chainEnd_fuel hwf _ _ f fw hfw (by unfold treeFuel; omega) (by omega)
+        have := focusLost_emits _ _ _ _ bw r0 h0' hendf hbw hbf
+        apply in1; rw [← h1]
+        exact List.mem_append.mpr (.inl this)
+    · -- off the chain: nothing to tell here, climb on
+      obtain ⟨s1, t1⟩ := gainLoseOld_track (b := b) h1 (.inl ⟨bw, hbw, hbf⟩)
+      obtain ⟨s2, t2⟩ := gainSelfOut_track (b := b) h2 t1
+      have s12 := sameLK_trans s1 s2
+      rcases t2 with hfoc2 | hmem
+      · cases hvp with
+        | top hw' hf' hpar =>
+          have := anc_parent_none ⟨hw', hf'⟩ hpar h0
+          subst this; exact absurd OnChain.root hon
+        | @step _ p w' hw' hf' hpar hv hvpp =>
+          have := live_unique ⟨hw', hf'⟩ hw; subst this
+          simp only [gainClimb, bind_ok] at h3
+          obtain ⟨w3, hg3, h3⟩ := h3
+          obtain ⟨w3', hw3', hs3⟩ := sameLK_live s12 hw
+          have := live_unique (get_ok.mp hg3) hw3'; subst this
+          have hp3 : w3.parent = some p := by unfold lk at hs3; simp at hs3; exact hs3.1.trans hpar
+          have hv3 : w3.isVisible = true := by unfold lk at hs3; simp at hs3; exact hs3.2.1.trans hv
+          simp only [hp3, hv3, if_true] at h3
+          apply in3
+          have hwf2 := gainSelfOut_wf (gainLoseOld_wf hwf h1) h2
+          have hsz : treeFuel r2.1 = treeFuel t := by unfold treeFuel; rw [s12.2.2]
+          refine ih r2.1 p (some x) r3 b h3 hwf2 (visPath_pv (sameLK_pv s12) hvpp)
+            (anc_lk s12 (anc_parent_some hwf hw hpar h0)) ?_ hfoc2 (fun hc => by cases hc)
+            (fun c hc => by cases hc; exact fun hoc => hon (onChain_lk (sameLK_symm s12) hoc)) ?_
+          · rw [hsz, chainEnd_lk s12]; exact hb
+          · rcases hex with hfx | ⟨_, hnb⟩
+            · exact .inl hfx
+            · exact .inr ⟨(fun hc => by cases hc),
+                fun ha => hnb (Anc.step hw hpar (anc_lk (sameLK_symm s12) ha))⟩
+      · exact in2 hmem
+
 end WinFocus
 end Tickit
